@@ -237,8 +237,16 @@ def case_history(ctx, rng, idx):
                 return
         elif op == "pathloss":
             m.pl = 10.0 ** rng.uniform(-3, 0, size=(m.K, m.K))
+            plk = rng.random()
+            if plk < 0.15:
+                m.pl = np.ones((m.K, m.K), dtype=int)            # "no loss", integer dtype
+            elif plk < 0.3:
+                m.pl = rng.integers(0, 2, size=(m.K, m.K))          # 0/1 mask, integer dtype
+                m.pl[np.arange(m.K), np.arange(m.K)] = 1
             if ext:
                 m.pl_ext = 10.0 ** rng.uniform(-3, 0, size=(m.K, len(m.NtE)))
+                if rng.random() < 0.15:
+                    m.pl_ext = np.ones((m.K, len(m.NtE)), dtype=int)
                 obj.set_pathloss(m.pl.copy(), m.pl_ext.copy())
             else:
                 obj.set_pathloss(m.pl.copy())
